@@ -127,12 +127,37 @@ fn history(ctx: &Ctx, rep: &mut Report, case_seed: u64, variant: u64, always_flu
 		keys[0].push(k0);
 		keys[1].push(k1);
 	}
+	// stable keys: written once by the owner's first transaction and never again, so that they
+	// stay wherever that write put them (an older index table after growth, an old btree leaf)
+	// while everything around them moves; readers read them like any other key
+	let n_stable = 4usize;
+	for o in 0..n_owners {
+		for i in 0..n_stable {
+			let mut k = hot.to_be_bytes().to_vec();
+			k.extend_from_slice(&rng.bytes(30));
+			keys[0][o].push(k);
+			let mut b = format!("o{}-s{:03}-", o, i).into_bytes();
+			b.extend_from_slice(&rng.bytes_in(0, 40));
+			keys[1][o].push(b);
+		}
+	}
 	let keys = Arc::new(keys);
 	let started: Arc<Vec<AtomicU64>> = Arc::new((0..n_owners).map(|_| AtomicU64::new(0)).collect());
 	let completed: Arc<Vec<AtomicU64>> = Arc::new((0..n_owners).map(|_| AtomicU64::new(0)).collect());
 	let stop = Arc::new(AtomicBool::new(false));
 	let duration = Duration::from_millis(ctx.tier.pick(rng.range(1500, 2500), rng.range(2500, 5000)));
 	delays::install(case_seed, rng.range(20, 250), rng.range(200, 2500), u64::MAX);
+	// one hand-over window is held open in every history (readers run through it many times):
+	// rare sites (reindex record, index drop) long, per-commit sites short
+	match (variant / 2) % 7 {
+		1 => delays::slow_site(2, rng.range(100, 600)),    // plan made, record not yet published
+		2 => delays::slow_site(3, rng.range(100, 600)),    // record published, commit overlay not yet cleaned
+		3 => delays::slow_site(5, rng.range(100, 600)),    // tables written, log overlay not yet cleaned
+		4 => delays::slow_site(6, rng.range(100, 600)),
+		5 => delays::slow_site(15, rng.range(2000, 8000)), // reindex batch planned, not yet published
+		6 => delays::slow_site(11, rng.range(2000, 8000)), // old index about to be dropped
+		_ => {},
+	}
 
 	// ---- committers
 	let mut owner_handles = vec![];
@@ -153,9 +178,19 @@ fn history(ctx: &Ctx, rep: &mut Report, case_seed: u64, variant: u64, always_flu
 				let mut tx = vec![];
 				let n_ops = r.range(1, 6);
 				let mut touched = std::collections::BTreeSet::new();
+				if v == 1 {
+					// the first transaction writes the stable keys
+					for c in 0..2u8 {
+						for ki in keys_per..keys[c as usize][o].len() {
+							let len = SIZES[2] + r.usize(3);
+							tx.push((c, Operation::Set(keys[c as usize][o][ki].clone(), encode(o as u8, c, ki as u16, v, len))));
+							log.writes.entry((c, ki as u16)).or_default().push((v, Some(len.max(HDR) as u32)));
+						}
+					}
+				}
 				for _ in 0..n_ops {
 					let c = r.below(2) as u8;
-					let ki = r.usize(keys[c as usize][o].len()) as u16;
+					let ki = r.usize(keys_per) as u16;
 					if !touched.insert((c, ki)) {
 						continue
 					}
